@@ -25,6 +25,10 @@ at the top-level directory.
 #include <stdio.h>
 #include "slu_mt_ddefs.h"
 
+#ifdef SLU_MT_VERIF
+slu_mt_verif_hook_t slu_mt_verif_hook = 0;
+#endif
+
 
 void superlu_abort_and_exit(char* msg)
 {
